@@ -1004,6 +1004,14 @@ def check_c19(tier, seed, log=print):
     # well choose and the generated code may use itself
     HYG = [F.HDR + '\npub enum T {\n    #[regex("[a-z]+", %s)] A,\n    #[token("=")] Eq,\n}\nfn %s<\'s>(_lex: &mut logos::Lexer<\'s, T>) {}' % (nm, nm)
            for nm in ('state0', 'state1', 'lex', 'offset', 'context', 'cb_result', 'token', 'action', 'callback')]
+    # inline callbacks whose body leaves early: `return` and `?` are part of what a closure may contain (the body is pasted into a
+    # function of the generated code, so they have to leave the closure, not that function); the last two are controls
+    NHYG = len(HYG)
+    HYG += [F.HDR + '\npub enum T {\n    %s\n    #[token("=")] Eq,\n}' % v for v in (
+        '#[regex("[a-z]+", |lex| { if lex.slice().len() > 3 { return false; } true })] A,',
+        '#[regex("[0-9]+", |lex| { let n: u8 = lex.slice().parse().ok()?; Some(n) })] A(u8),',
+        '#[regex("[a-z]+", |lex| lex.slice().len() > 3)] A,',
+        '#[regex("[0-9]+", |lex| lex.slice().parse::<u8>().ok())] A(u8),')]
     # (a crate of their own: the malformed stream stops rustc before it checks types)
     per_h, other_h, rc_h, err_h = U.run_ui('ui19h', HYG)
     per, other, rc, err = U.run_ui('ui19', [cases[i]['src'] for i in ui_idx])
@@ -1011,7 +1019,9 @@ def check_c19(tier, seed, log=print):
     for src_h, msgs in zip(HYG, per_h):
         if msgs:
             run.violation('does-not-compile', dict(definition=src_h, messages=msgs[:3], entry='rustc (stable) procedural macro, default (tail-call) code generator',
-                                                   what='the derive accepts the definition and the implementation it returns does not compile: the name of the callback is taken by an item of the generated code'),
+                                                   what=('the derive accepts the definition and the implementation it returns does not compile: the name of the callback is taken by an item of the generated code'
+                                                         if HYG.index(src_h) < NHYG else
+                                                         'the derive accepts the definition and the implementation it returns does not compile: `return` / `?` in the body of an inline callback leave the generated function the body is pasted into, not the closure')),
                           key='uicompile|' + src_h)
     ui_panics = 0
     for i, msgs in zip(ui_idx, per):
